@@ -33,6 +33,7 @@ func init() {
 		Run:         runC16,
 	})
 	c16Path = eng.NewKind(c, "path", judgePath)
+	c16Soak = eng.NewKind(c, "soak", judgeSoakPath)
 }
 
 type c16S struct {
@@ -60,6 +61,10 @@ func c16Universe(depth int) map[string]interface{} {
 		"tm": c16Time, "sl": c16Slice, "f": c16Func, "zt": time.Time{}, "nsl": []string(nil), "nany": []interface{}(nil), "esl": []interface{}{},
 		"mi": map[string]int{"z": 0, "o": 1}, "ms": map[string]string{"e": "", "a": "x"}, "mb": map[string]bool{"f": false, "t": true},
 		"A": "map-A",
+		// keys spelled like reserved words (legal as member names), keys beginning with underscores,
+		// keys that differ from another key only in case
+		"null": "kw-null", "this": "kw-this", "true": "kw-true", "false": "kw-false", "ctx": "kw-ctx", "typeof": "kw-typeof",
+		"__u": "two-underscores", "___v": "three-underscores", "_w": "one-underscore", "Str2": "upper-S", "str2": "lower-s", "STR2": "all-caps",
 	}
 	// several struct types that share field names at different positions (and no type name)
 	m["sa"] = struct {
@@ -84,6 +89,10 @@ func c16Universe(depth int) map[string]interface{} {
 }
 
 var c16Keys = []string{"k", "s", "A", "b", "z", "q", "n", "np", "len", "now", "i", "i32", "i64", "f64", "str", "e", "bl", "t", "tm", "sl", "f", "mi", "ms", "mb", "M", "o", "a", "I64", "F", "Str", "Z", "Np", "T", "Sl", "x", "Missing", "sa", "sb", "sc", "Name", "Age", "ID", "zt", "nsl", "nany", "esl", "$loc", "npd", "npt", "nps", "npi"}
+
+// c16MemberOnly: keys used after a dot only (as a bare name a reserved word is not a name)
+var c16MemberOnly = []string{"null", "this", "true", "false", "ctx", "typeof"}
+var c16Extra = []string{"__u", "___v", "_w", "Str2", "str2", "STR2", "sTr2", "__missing"}
 
 var c16Configs = map[string]func() map[string]interface{}{
 	"full":  func() map[string]interface{} { return c16Universe(3) },
@@ -391,19 +400,77 @@ func judgePath(c PathCase) *eng.Fail {
 	return nil
 }
 
+// SoakPathCase: one runner evaluates a failing formula N times, then a list of paths; a fresh runner
+// evaluates the same list; both must agree (errors that are expected leave nothing behind).
+type SoakPathCase struct {
+	Fail string `json:"fail"`
+	N    int    `json:"n"`
+}
+
+var c16Soak *eng.Kind[SoakPathCase]
+
+func judgeSoakPath(c SoakPathCase) *eng.Fail {
+	data := c16Data("full")
+	probe := "[k.z, s.A, missing.x, n.x.y, np.k, str, this.i, k.k.mi.o, sa.Name, k!.k!.f64, np === null, q.r.s.t]"
+	pp := safeParse([]byte(probe))
+	fp := safeParse([]byte(c.Fail))
+	if pp.err != nil || fp.err != nil || pp.panicked || fp.panicked {
+		return eng.F("C16/parse", "%v %v", pp.err, fp.err)
+	}
+	fresh := formula.NewRunner()
+	fresh.SetThis(data)
+	want := safeResolve(fresh, bg, pp.src.Expression)
+	r := formula.NewRunner()
+	r.SetThis(data)
+	for i := 0; i < c.N; i++ {
+		o := safeResolve(r, bg, fp.src.Expression)
+		if o.panicked {
+			return eng.F("C16/panic", "%s: %s", c.Fail, o.panicMsg)
+		}
+		if o.err == nil {
+			return eng.F("C16/missing-error", "%s must be an error (assertion on null), repetition %d yields %s", c.Fail, i+1, show(o.val))
+		}
+	}
+	got := safeResolve(r, bg, pp.src.Expression)
+	if got.panicked || (got.err == nil) != (want.err == nil) || canonImpl(got.val) != canonImpl(want.val) {
+		return eng.F("C16/state-after-failures", "after %d failed evaluations of %.60s... on one runner, %s = %s %v; on a fresh runner %s %v", c.N, c.Fail, probe, canonImpl(got.val), got.err, canonImpl(want.val), want.err)
+	}
+	outcome("soak")
+	return nil
+}
+
 func runC16(w *eng.W) {
 	W = w
+	if w.Take() {
+		chain := "missing!.a1"
+		for i := 2; i <= 120; i++ {
+			chain += ".a" + strconv.Itoa(i)
+		}
+		n := 12000
+		if !w.Quick() {
+			n = 60000
+		}
+		for _, f := range []string{chain, "n!.x", "k.n!.y.z", "np!.A", "[1, [2, [3, q!.r]]]"} {
+			w.State(1)
+			w.Trans(int64(n))
+			w.Trace(1)
+			w.Note("leg:after-many-failures", 1)
+			c := SoakPathCase{Fail: f, N: n}
+			w.Sample("after-many-failures", c)
+			c16Soak.Do(w, c)
+		}
+	}
 	depth := 3
 	if !w.Quick() {
 		depth = 4
 	}
-	roots := append([]string{"this"}, c16Keys...)
+	roots := append(append([]string{"this"}, c16Keys...), c16Extra...)
 	var segs []string
-	for _, k := range c16Keys {
+	for _, k := range append(append(append([]string{}, c16Keys...), c16Extra...), c16MemberOnly...) {
 		segs = append(segs, "."+k, "!."+k)
 	}
 	var deepSegs []string
-	for _, k := range []string{"k", "s", "M", "q", "n", "np", "z", "i64", "mi", "A", "b", "Missing", "str", "sa", "sb", "Name", "zt", "nsl", "npd", "npi"} {
+	for _, k := range []string{"k", "s", "M", "q", "n", "np", "z", "i64", "mi", "A", "b", "Missing", "str", "sa", "sb", "Name", "zt", "nsl", "npd", "npi", "null", "typeof", "this", "__u", "sTr2", "str2"} {
 		deepSegs = append(deepSegs, "."+k, "!."+k)
 	}
 	for _, cfg := range []string{"full", "nulls", "empty", "none"} {
